@@ -77,7 +77,7 @@ def run(tier):
     ck = Check("C09", tier, "model_checking")
     ck.flex()
     quick = tier == "quick"
-    L = 4 if quick else 6
+    L = 4 if quick else 7
     jobs = []
 
     def J(tag, gs, kn, per=60, **kw):
